@@ -304,3 +304,31 @@ Proof.
   - unfold cfg_le, usage_cfg; cbn. repeat split; try lia.
   - unfold within_limits_full, within_limits, usage_cfg; cbn. repeat split; try lia; assumption.
 Qed.
+
+(* C14, complete documents: all six limits are necessary and sufficient. *)
+Theorem limits_necessary_document cfg es :
+  accepts_document cfg es = true -> within_limits_full cfg es.
+Proof.
+  intro A. pose proof (accepts_document_accepts _ _ A) as A'.
+  destruct (limits_necessary_full _ _ A') as [N1 [N2 [N3 [N4 N5]]]].
+  unfold within_limits_full, within_limits. repeat split; auto. apply document_markers_within. exact A.
+Qed.
+
+Theorem limits_exact_document cfg es :
+  accepts_document cfg es = true <->
+  (exists cfg', cfg_le cfg cfg' /\ accepts_document cfg' es = true) /\ within_limits_full cfg es.
+Proof.
+  split.
+  - intro A. split; [exists cfg; split; [apply cfg_le_refl | exact A] | apply limits_necessary_document; exact A].
+  - intros [[cfg' [Hle A]] W]. eapply limits_sufficient_full_document; eauto.
+Qed.
+
+(* with every limit set to the measured usage the document is still accepted *)
+Theorem limits_tight_document cfg es :
+  accepts_document cfg es = true -> accepts_document (usage_cfg cfg es) es = true.
+Proof.
+  intros A. destruct (limits_necessary_document _ _ A) as [[No [Nd [Na [Ni Nm]]]] Nc].
+  apply (limits_sufficient_full_document (usage_cfg cfg es) cfg es); auto.
+  - unfold cfg_le, usage_cfg; cbn. repeat split; try lia.
+  - unfold within_limits_full, within_limits, usage_cfg; cbn. repeat split; try lia; assumption.
+Qed.
